@@ -43,11 +43,12 @@ enum OpCode : uint8_t {
   SETVER,                  // x value
   XVER,                    // x
   NOP,                     // harness scheduling point only
+  HOLD,                    // arg: stay where we are (typically inside a critical section) for arg interpreter-level yields
   kNumOps
 };
 inline const char *kOpName[] = {"ACQ_S", "ACQ_SIX", "ACQ_X", "REL", "DROP", "MOVE", "MOVECTOR", "SELFMOVE", "UPG", "DWN", "READ",
                                 "WRITE", "GETVER", "COPYOPT", "OPTREAD", "VERIFY", "TRY_S", "TRY_SIX", "TRY_X", "PREP", "CVERIFY",
-                                "SETVER", "XVER", "NOP"};
+                                "SETVER", "XVER", "NOP", "HOLD"};
 
 struct Op {
   uint8_t code = NOP;
